@@ -252,6 +252,17 @@ pub fn video_timeline(r: &mut Rng, n: usize, reorder: bool, start: f64) -> Vec<(
     for (k, &di) in order.iter().enumerate() {
         pts[di] = grid(k + delay);
     }
+    // now and then ONE picture is shown much later than its decode slot (a long-term reference or
+    // an alternate reference shown at the end of its group): every picture decoded after it - many
+    // more than any reorder window - ends earlier, so "the end of the track" is not to be found
+    // among the last few samples in decode order
+    if n >= 4 && r.chance(1, 10) {
+        let i = r.usize_below(n - 1);
+        let late = dts[n - 1] + step * r.range(2, 60) as f64;
+        if late - dts[i] < 20_000.0 {
+            pts[i] = late;
+        }
+    }
     // sometimes the two timestamps of a frame carry independent sub-tick noise (capture clocks):
     // they may then round to neighbouring ticks, and the offset of that frame is +-1, not 0
     let mut dts = dts;
